@@ -394,7 +394,7 @@ class MeasuredValue(ExperimentalValue):
     def value(self, value: Real):
         if not isinstance(value, Real):
             raise TypeError("Cannot assign a {} to the value!".format(type(value).__name__))
-        self._value = value
+        self._value = float(value)  # stored as a float, as the constructor does
 
     @property
     def error(self):
